@@ -14,5 +14,8 @@ TD_PolicyRefused == {}
 TD_Addrs == {"1.1.1.1"}
 TD_Cmds == {"EVENT"}
 TD_Rules == [global |-> [EVENT |-> << <<1, 1>> >>]]
+TD_Workers == {1, 2}
+TD_IdsOf == (1 :> <<"a">>) @@ (2 :> <<>>)
+TD_K == 2
 Traces == <<>>
 =============================================================================
